@@ -198,6 +198,45 @@ def rule_r4(rep, program):
             r.inst({"site": f"{dname}.wrapper", "call": norm(mc), "guarded_by_miss_test": guarded})
             if not guarded:
                 r.violate(PROP, f"{dname}.wrapper:unguarded-call", "the wrapped method is evaluated outside the cache-miss test, i.e. on every call", node=mc, file=d.file)
+        # must-pass-through: every path from the evaluation of the wrapped method to a return stores the
+        # result in the state's cache (for every state, read-only ones included: a value that is
+        # returned without being stored is evaluated again on the next call)
+        from ..cfg import CFG
+
+        cfg = CFG(w)
+
+        def is_store(node):
+            a = node.ast
+            if isinstance(a, ast.Assign) and any(isinstance(t, ast.Subscript) and norm(t.value).endswith("._cache") for t in a.targets):
+                return True
+            if isinstance(a, ast.Expr) and isinstance(a.value, ast.Call) and isinstance(a.value.func, ast.Attribute) and a.value.func.attr in ("update", "setdefault", "__setitem__") and norm(a.value.func.value).endswith("._cache"):
+                return True
+            if node.kind == "for":
+                # a loop over the (non-empty: it contains the primary key) key list whose body stores unconditionally
+                a = next((x for x in ast.walk(w) if isinstance(x, ast.For) and x.iter is node.ast), None)
+                return a is not None and any(isinstance(st, ast.Assign) and any(isinstance(t, ast.Subscript) and norm(t.value).endswith("._cache") for t in st.targets) for st in a.body)
+            return False
+
+        starts = [n for n in cfg.nodes if n.ast is not None and n.kind in ("stmt", "test") and any(x is mc for mc in mcalls for x in ast.walk(n.ast if not isinstance(n.ast, (ast.For, ast.While, ast.If, ast.Try)) else ast.Pass()))]
+        if not starts:
+            raise AnalysisError(f"{dname}: statement evaluating the wrapped method not found in the flow graph")
+        for st0 in starts:
+            seen, stack, leak = set(), [st0] if not is_store(st0) else [], None
+            while stack:
+                n = stack.pop()
+                if n in seen:
+                    continue
+                seen.add(n)
+                for m, lab in n.succ:
+                    if m is cfg.exit_return:
+                        leak = n
+                    elif m is cfg.exit_raise or is_store(m):
+                        continue
+                    else:
+                        stack.append(m)
+            r.inst({"site": f"{dname}.wrapper", "every return after a miss passes a cache store": leak is None})
+            if leak is not None:
+                r.violate(PROP, f"{dname}.wrapper:miss-not-stored", f"on a cache miss the wrapper can return (at `{norm(leak.ast)[:50] if leak.ast is not None else 'end'}`) without writing the evaluated value to the state's cache: on such states every later call evaluates the wrapped method (and the user's model function) again, and auxiliary outputs are lost", node=leak.ast or w, file=d.file)
         if dname == "cache_in_state_with_aux":
             stores = False
             for n in ast.walk(w):
